@@ -64,10 +64,12 @@ CLAIMED = {
         'text': 'Deductive proof (Verus) on the verbatim bodies of Unifiable::recreate_variables (all arms, including the list arm that rebuilds through make_linked_list), recreate_vars_terms, recreate_vars_goals, '
                 'Goal::, Operator::, BuiltInPredicate:: and Rule::recreate_variables: the result has the same shape as the input (same atoms, numbers, functors, goal kinds, list spine, per-node counts and tail markers; the empty list stays the empty list), '
                 'every variable of the result carries the id recorded for its name in the map (one id per name, across head and body), the map only grows (no name is renumbered), and all ids are usable (non-zero). '
-                'Freshness of the ids themselves comes from next_id(), whose counter contract is proved by a complete Kani harness; the composition of the two is stated as an assumption.',
-        'note': "Trusted: obeys_key_model::<String>() for HashMap<String,_> (T2), next_id's contract in Verus (assumed there, proved by Kani), T1, T4, T5. Not covered: get_rule/make_query glue, the fallback_id restore in the solver, termination of the recursion.",
-        'technique': 'contract-based deductive verification (Verus) of extracted real code + Kani harness for the id counter',
-        'design_ref': 'DESIGN.md 5/C10',
+                'Freshness: the id counter is ghost state threaded through the renaming family (next_id moves it up by one: complete Kani harness on the real static), so every id of a renamed clause lies above the counter as it was and up to the counter as it is (get_rule #ids_fresh, #ids_interval). '
+                'In the search (unit solver_ids: overlay contracts on the verbatim bodies of next_solution, next_solution_and / _or / _bip, make_solution_node, make_base_node, set_head_node, over the node heap with the counter as a ghost field) every variable id referenced from the search state - '
+                'goals, remaining operands and bindings of every solution node, and every answer - is at most the counter before and after every request; so the ids of a fresh clause copy are in use nowhere else in the search, and the rewinding of the counter after a failed head unification gives back ids that nothing refers to.',
+        'note': "Trusted: obeys_key_model::<String>() for HashMap<String,_> (T2), next_id's contract in Verus (assumed there, proved by Kani), T1, T4, T5. RELATIVE TO (assumed in unit solver_ids): the preconditions of unify and get_rule at the solver's call sites (C08 / C15 invariants are not carried through the search), append / functor / include / exclude introduce no variable of their own (proved for the comparisons and count), the query was built in the current counter epoch. Not covered: termination of the recursion.",
+        'technique': 'contract-based deductive verification (Verus) of extracted real code (renaming family; id invariant of the search over a ghost heap model) + Kani harness for the id counter',
+        'design_ref': 'DESIGN.md 5/C10, 8.30, 8.36',
     },
     'C12': {
         'text': 'Deductive proof (Verus) on the verbatim bodies of evaluate_add, evaluate_subtract, evaluate_multiply, evaluate_divide and their argument pipeline get_numbers / get_integers / get_floats '
